@@ -160,12 +160,13 @@ def make_case(engine, seed):
     rng = core.Rng(core.h64('c20', seed))
     if engine.startswith('synth'):
         faults = rng.pick([[], [], ['raise'], ['unsup_ln'], ['unsup_in'], ['notimpl'], ['cycle'], ['raise', 'unsup_ln'],
-                           ['wrong'], ['unk_ln']])
+                           ['wrong'], ['unk_ln'], ['corrupt'], ['corrupt', 'notimpl']])
         case = gen.gen_case(seed, force_faults=faults)
         case['prompt'] = True
         case['refuse_at'] = None
-        case['file'] = [n for n in case['file'] if rng.chance(rng.pick([0.0, 0.3, 0.7]))]
-        if rng.chance(0.1):
+        keep = rng.pick([0.0, 0.3, 0.7])
+        case['file'] = [n for n in case['file'] if rng.chance(keep) or case['persona'][n]['invalid'] or '\n' in case['persona'][n]['text']]
+        if rng.chance(0.1) and not any(p_['invalid'] or '\n' in p_['text'] for p_ in case['persona'].values()):
             case['file'] = []
             case['no_file'] = True
         return case
